@@ -61,7 +61,8 @@ TRule ==
          tgt == TargetOf(run.premium)
          isKnown == e.known # ""
          cardFails ==
-            When(e.validPair /\ e.api.ok /\ e.cardAfter = e.api.css, "C08_CardIsApiResult")
+            When(e.validPair /\ ((e.api.ok /\ e.cardAfter = e.api.css) \/ \E j \in 1..Len(e.apiAlt) : e.cardAfter = e.apiAlt[j]),
+                 "C08_CardIsApiResult")
             \cup (IF e.cardAfter # <<>> /\ e.bg # <<>> /\ Meets(e.cardAfter, e.bg, tgt) = "LT" THEN {"C08_CardMeetsTarget"} ELSE {})
             \cup When(e.cardAfter # <<>>, "C08_CardColourUnreadable")
             \cup When(e.written = e.cardAfter, "C08_ReportedIsWritten")
